@@ -9,7 +9,7 @@ COMMON_NOTE = ("Trusted: Lean 4.33 kernel and the axioms propext / Classical.cho
                "generators/oracles; i32 arithmetic is modelled on unbounded Int. ")
 
 P = {
- "C01": ("Theorem C01_solutions_satisfy: for every well-formed model (any size), every pop policy and every fuel, each assignment yielded by the modelled engine (enumerate and branch-and-bound modes) lies in the declared domains and satisfies the meaning of every posted propagator — derived from per-kind contract lemmas through the propagation-fixpoint invariant. Kernel-checked counterexamples for the two recorded findings (NotEquals no-op, all-zero linear rows). Tie: exact comparison of yielded solution sequences, fixpoints and single prunes between model and code, plus brute-force oracle on every yielded assignment.",
+ "C01": ("Theorem C01_solutions_satisfy: for every well-formed model (any size), every pop policy and every fuel, each assignment yielded by the modelled engine (enumerate and branch-and-bound modes) lies in the declared domains and satisfies the meaning of every posted propagator — derived from per-kind contract lemmas through the propagation-fixpoint invariant. Kernel-checked counterexample for the recorded finding (all-zero linear rows); C01_neq_checked for the repaired NotEquals propagator. Without any fuel proviso through IModel.search_terminates. Tie: exact comparison of yielded solution sequences, fixpoints and single prunes between model and code, plus brute-force oracle on every yielded assignment.",
          "Lean 4 proof (contract lemmas + stable-agenda invariant + induction over the search tree) with differential correspondence",
          "Covers the propagator kinds in PK (see evidence assumptions); the lowering from the fluent API to propagators is C10's subject; root-LP step and optimisation fast path are outside the model (call-site findings)."),
  "C02": ("Theorems C02_solve_complete / C02_no_solution_sound / C02_solve_sound: a satisfiable well-formed model is never reported unsatisfiable, a no-solution verdict implies unsatisfiability, for any schedule; from per-kind soundness (no supported value removed) by induction over the search tree. Tie as C01; oracle = brute-force satisfiability.",
@@ -21,7 +21,7 @@ P = {
  "C04": ("Theorems C04_bnb_optimal / C04_maximize: yielded objective values strictly decrease, every yielded assignment is a solution, nothing yielded iff unsatisfiable, the last yielded assignment is optimal; maximize is minimize of the opposite view. Tie: sequences of minimize/maximize runs compared between model and code for random objective views.",
          "Lean 4 proof (branch-and-bound invariant `Decr` by induction over the search tree) with differential correspondence",
          "Search path only: the optimisation fast path and the root LP step are switched off in the engine-level runs and handled as call-site findings."),
- "C05": ("Theorems C05_contract (per-kind: keeps every supported value, only shrinks, records events, checks fixed tuples, reads only its triggers), C05_fixpoint_keeps_solutions, C05_fixpoint_shrinks, C05_fixed_checked for any schedule/agenda; counterexamples for the two findings. Tie: every kind's prune compared exactly (result, all domains, events, triggers) on random and exhaustive domain tuples, incl. prune/tighten/prune sequences.",
+ "C05": ("Theorems C05_contract (per-kind: keeps every supported value, only shrinks, records events, checks fixed tuples, reads only its triggers), C05_fixpoint_keeps_solutions, C05_fixpoint_shrinks, C05_fixed_checked for any schedule/agenda; C05_contract_inv (all 31 modelled kinds, store precondition only for modulo), C05_propagation_terminates, C05_fixpoint_all_kinds; counterexamples for the open findings (all-zero linear rows, modulo family). Tie: every kind's prune compared exactly (result, all domains, events, triggers) on random and exhaustive domain tuples, incl. prune/tighten/prune sequences.",
          "Lean 4 proof (per-kind contract lemmas, fixpoint theorems) with differential correspondence",
          "Kinds not yet in PK (alldiff, element, table, count, cardinality, between, if-then-else, div, modulo, mul, allequal, float linear) are not covered by theorems in this revision."),
  "C12": ("Integer arms: C12_trySetMin_int_exact / C12_trySetMax_int_exact: exact filter semantics, failure iff empty remainder, event iff change, frame. Float arms (Props/C12Float.lean, exact rationals): never widens, outward-safe (a value one step inside the bound is kept), no inverted interval, event iff change, failure only across a gap; float bound on an integer variable exact; FloatInterval primitives (round/floor/ceil to step, next/prev, mid, remove_below/above) stay inside and are monotone; counterexample + partial theorem for the integer-bound-on-float-variable arm (recorded finding). Tie: ctx.min/ctx.max ops through hook H1 and every FloatInterval method compared bit-for-bit, exhaustive over a small grid universe; set-filter oracle.",
@@ -57,7 +57,7 @@ P = {
  "C18": ("Theorems for all 9x9 grids: naked_single_sound, hidden_single_sound (row/col/box, via the pigeonhole lemma unit_contains_every_digit), posted_sound (every posted cell==digit holds in every valid completion), naked_pairs_no_effect, events_closed_form, verify_solution_iff_valid, C18_sound_complete_partial (guard: clues in 0..9): the valid completions are exactly the solutions of domains + 27 all-different + posted singles, C18_posted_redundant, C18_end_to_end (sound, complete and agreeing with the general solver, parametric in a general solver satisfying C01-C03); counterexamples for the two findings. Tie: candidate tables, technique passes, the complete posted-event trace (hook H8) and results compared exactly; brute-force referee search as oracle.",
          "Lean 4 proof (soundness of every elimination rule for all grids) with differential correspondence of the event trace",
          "The general solver's answer is an input of the model; its correctness is C01-C03's subject."),
- "C10": ("Theorems about the lowering model (Model/Lower.lean) for all expression trees: Expr.build_eval (smart constructors / constant folding / identities preserve evaluation), extractLinear_sound, linearise_sound, materializeLin_sem, applyVarEqBounds_sound, C10_linear_fragment (posting + lowering a list of simple comparisons yields propagators whose joint meaning is exactly the conjunction of the trees), C10_and_vv_sem, C10_or_same_var_sound, C10_aux_vars_partial (auxiliary variables are functionally determined, inside the inferred range); kernel-checked counterexamples for the recorded findings (or lowered as and, not ignored, nested != unchecked, auxiliary variable clipped). Tie: hook H2 returns the code's own lowered (Vars, Propagators) for random expression trees; compared exactly with the model's lowering, and the enumerated solution set is compared with direct evaluation of the tree.",
+ "C10": ("Theorems about the lowering model (Model/Lower.lean) for all expression trees: Expr.build_eval (smart constructors / constant folding / identities preserve evaluation), extractLinear_sound, linearise_sound, materializeLin_sem, applyVarEqBounds_sound, C10_linear_fragment (posting + lowering a list of simple comparisons yields propagators whose joint meaning is exactly the conjunction of the trees), C10_and_vv_sem, C10_or_same_var_sound, C10_aux_vars_partial (auxiliary variables are functionally determined, inside the inferred range); C10_or_comparisons_sound / C10_not_comparison (the repaired lowerings), float operands: C10_float_extract_sound, C10_float_lowering_decision (integer lowering iff no float literal is left — variable types are never consulted), C10_float_row_partial; kernel-checked counterexamples for the open findings (nested or / float or still a conjunction, Not node around and/or lowered as its content, float rows lowered to integer propagators, auxiliary variable clipped). Tie: hook H2 returns the code's own lowered (Vars, Propagators) for random expression trees; compared exactly with the model's lowering, and the enumerated solution set is compared with direct evaluation of the tree.",
          "Lean 4 proof (translation correctness by structural induction over expression trees) with differential correspondence of the lowering",
          "Float operands and the mul/div/mod auxiliary constraints are covered by the correspondence and the API-level oracle, not by the linear-fragment theorem."),
  "C19": ("Theorems for every state, slice and size: bitset_alldiff_sound / bitset_removed_unsupported / bitset_inconsistent_no_solution (assigned-value elimination + Hall sets, pigeonhole for any subset size, HashSet order irrelevant), hybrid_sound / hybrid_history_sound (invariant over any history of adds, removals, assigns, bound cuts, propagations), alldiff_prune_sound / _fail_sound / _checking / _contracting (AllDiff::prune on bounds), sparse_inconsistent_sound; kernel-checked counterexamples: sparse engine removes supported values, depends on hash order, panics; engines disagree on unsatisfiable families (partial theorem: they agree when a solution exists). Tie: all three engines driven op by op (add/remove/assign/cut/propagate) and compared exactly with the model, exhaustively for <=4 variables over <=5 values, randomly up to 8 variables incl. >128-value domains; brute-force all-different oracle.",
